@@ -1,15 +1,18 @@
 #!/bin/sh
 # Build the overlay venv used by every check.  Offline: wheels come from /opt/veriftools/wheels.
+# VERIF_VENV / VERIF_REPO override the locations (used to run a check against a snapshot of the repository).
 set -e
 cd "$(dirname "$0")"
-VENV=/verif/.venv
-if [ -x "$VENV/bin/python" ] && "$VENV/bin/python" -c "import crosshair, z3, jsonschema, pydsdl" 2>/dev/null; then
+VENV="${VERIF_VENV:-/verif/.venv}"
+REPO_DIR="${VERIF_REPO:-/repo}"
+if [ -x "$VENV/bin/python" ] && "$VENV/bin/python" -c "import crosshair, z3, jsonschema, pydsdl, sys; sys.exit(0 if pydsdl.__file__.startswith('$REPO_DIR/') else 1)" 2>/dev/null; then
     exit 0
 fi
 rm -rf "$VENV"
 /venv/bin/python -m venv "$VENV"
 SP=$("$VENV/bin/python" -c "import sysconfig; print(sysconfig.get_paths()['purelib'])")
-printf '%s\n%s\n' "/venv/lib/python3.12/site-packages" "/repo" > "$SP/verif_overlay.pth"
+# the repository under test first (the editable install of /venv points at /repo)
+printf '%s\n%s\n' "$REPO_DIR" "/venv/lib/python3.12/site-packages" > "$SP/verif_overlay.pth"
 PIP_NO_INDEX=1 "$VENV/bin/pip" install -q --no-index --find-links /opt/veriftools/wheels \
     crosshair-tool z3-solver cvc5 jsonschema >/dev/null
-"$VENV/bin/python" -c "import crosshair, z3, jsonschema, pydsdl; assert pydsdl.__file__.startswith('/repo/'), pydsdl.__file__"
+"$VENV/bin/python" -c "import crosshair, z3, jsonschema, pydsdl; assert pydsdl.__file__.startswith('$REPO_DIR/'), pydsdl.__file__"
